@@ -99,7 +99,7 @@ def handle (line : String) : String :=
           | some m => m.callableByValue
           | none => false
         pure (Json.mkObj [("holds", SpecRow cfg.prio r), ("namesake", rowNamesake r), ("header", rowHeader r),
-          ("ret", rowReturnDouble r), ("arith", rowArith cfg.prio r), ("faithful", rowRetFaithful r), ("byvalue", byv),
+          ("ret", rowRetFaithful r), ("arith", rowArith cfg.prio r), ("faithful", rowRetFaithful r), ("byvalue", byv),
           ("knownPy", (meaningPy r.py).isSome), ("knownCpp", (meaningCpp r.cpp).isSome)])
       else if op == "resolve" then
         let n ← (← j.getObjVal? "name").getStr?
